@@ -187,6 +187,47 @@ def run(pid, tier, seed):
             for c, n in tv["cnt"].items():
                 verdict["cnt"][c] = verdict["cnt"].get(c, 0) + n
             verdict["n"] += tv["n"]
+        # --- drift monitor: the recorded traces replayed through the mechanism layer (specs/PoolConform.tla); never a verdict
+        drift = {"scripts_conforming": 0, "drift": 0, "events": 0, "first_drifts": []}
+        t_d = time.time()
+        groups = {}
+        for ln in open(tr0):
+            sid = ln[8:ln.index('"', 8)] if ln.startswith('{"sid":"') else ""
+            fam_ = sid.rsplit("-", 2)[0] if sid.count("-") >= 2 else ""
+            if fam_ in pool.FAMILIES:
+                groups.setdefault(("fam", fam_), []).append(ln)
+        for ln in open(tr1):
+            sid = ln[8:ln.index('"', 8)] if ln.startswith('{"sid":"') else ""
+            if sid.startswith("rnd-"):
+                combo = sid[4:].rsplit("-", 1)[0]
+                if combo in pool.RANDOM_COMBOS:
+                    groups.setdefault(("rnd", combo), []).append(ln)
+        for (kind, name), lns in sorted(groups.items()):
+            # whole scripts only, at most ~12k events per group
+            cut = len(lns)
+            lim_ = 2000 if tier == "quick" else 40000
+            if cut > lim_:
+                cut = lim_
+                while cut < len(lns) and '"op":"reset"' not in lns[cut][:90]:
+                    cut += 1
+            gp = scratch.path("conf-%s-%s.ndjson" % (kind, name))
+            open(gp, "w").writelines(lns[:cut])
+            if kind == "fam":
+                r_ = pool.conform(scratch, name, gp)
+            else:
+                c_ = pool.RANDOM_COMBOS[name][0]
+                r_ = pool.conform(scratch, "spanner", gp, consts_override=dict(CfgMin=c_["min"], CfgMax=c_["max"], CfgWm=c_["wm"], CfgFb=c_["fb"],
+                                                                               CfgUc=c_["uc"], CfgUms=c_["ums"], CfgRr=c_["rr"]))
+            for k_ in ("scripts_conforming", "drift", "events"):
+                drift[k_] += r_[k_]
+            for d_ in r_["first_drifts"][:2]:
+                drift["first_drifts"].append(dict(d_, group=name))
+        drift["wall"] = round(time.time() - t_d, 1)
+        drift["first_drifts"] = drift["first_drifts"][:6]
+        if drift["drift"]:
+            print("MODEL-DRIFT property=%s: %d of %d replayed scripts are not behaviours of specs/Pool.tla (first: %s)" % (
+                pid, drift["drift"], drift["drift"] + drift["scripts_conforming"],
+                [(d_["group"], d_["sid"], d_["i"], d_["op"]) for d_ in drift["first_drifts"][:3]]))
         # --- binding demonstration: corrupt one recorded field of a real trace prefix and require that the clauses reject it
         binding = binding_demo(scratch, tr0)
         # --- violations of this property's clauses
@@ -253,6 +294,7 @@ def run(pid, tier, seed):
             "known_findings_matched": known_hits,
             "config_text": text_stats,
             "binding_demo": binding,
+            "mechanism_conformance": drift,
             "explanation": "TLC checks mechanism => clauses on specs/Pool.tla for every history up to max_events events per family "
                            "(states/transitions) and simulates deeper; every generated history is executed against the real balancer/picker "
                            "and TLC evaluates the clauses of specs/PoolGhost.tla on every recorded event (specs/PoolTrace.tla).",
